@@ -577,8 +577,12 @@ impl Driver {
 
     fn last(&self, cid: usize) -> Value { self.rig.sh.lock().last.get(&cid).cloned().unwrap_or(Value::Null) }
 
+
     fn release(&self, cid: usize, park_again: bool) {
         let mut sh = self.rig.sh.lock();
+        if !sh.parked.contains(&cid) {
+            return;
+        }
         if park_again {
             sh.want_park.insert(cid);
         }
@@ -717,6 +721,33 @@ fn replay_one(id: u64, beh: &Value, panics: &Arc<AtomicU64>) -> Vec<Value> {
                     }
                 }
             }
+            "await_park" => match drv.wait(c) {
+                Wait::Parked => note(&rig, json!("parked")),
+                Wait::Done => note(&rig, json!("done")),
+                Wait::Hang => {
+                    aborted = json!({"i": i + 1, "why": "get hangs"});
+                    note(&rig, json!("hang"));
+                }
+            },
+            "res" => {
+                // the model's get is finished: let a reader that is (still or
+                // again) parked in a store read run to completion
+                let mut w = drv.wait(c);
+                let mut guard = 0;
+                while w == Wait::Parked && guard < 8 {
+                    drv.release(c, false);
+                    w = drv.wait(c);
+                    guard += 1;
+                }
+                match w {
+                    Wait::Done => note(&rig, drv.last(c)),
+                    _ => {
+                        aborted = json!({"i": i + 1, "why": "get hangs"});
+                        note(&rig, json!("hang"));
+                    }
+                }
+            }
+            "end" => {}
             "join" => match drv.wait(c) {
                 Wait::Done => note(&rig, drv.last(c)),
                 Wait::Parked => note(&rig, json!("parked")),
@@ -772,7 +803,36 @@ fn seq_one(id: u64, rng: &mut StdRng, p: &SeqParams, panics: &Arc<AtomicU64>) ->
         let roll = rng.gen_range(0..100);
         let k = rng.gen_range(0..p.keys);
         let v = rng.gen_range(0..p.vals);
-        let w = if roll < 8 && open.len() < 3 {
+        let w = if p.big && !big_done && p.kind == Kind::Set && rng.gen_range(0..6) == 0 {
+            // cross the spill threshold on key 0 (elements 200..): submit what
+            // is open, bulk-insert through a batch of its own and commit
+            // everything; no read happens while the bulk batch is pending
+            big_done = true;
+            let mut ok = Wait::Done;
+            for b in std::mem::take(&mut open) {
+                submitted.insert(b);
+                ok = drv.run(1, Cmd::Submit { b }).0;
+            }
+            let b = next_b;
+            next_b += 1;
+            let lo = 200;
+            let hi = lo + rng.gen_range(1018..1032);
+            drv.run(1, Cmd::New { b });
+            for e in lo..hi {
+                last_epoch.insert((0, e), b);
+            }
+            drv.run(1, Cmd::InsRange { b, k: 0, lo, hi });
+            drv.run(1, Cmd::Submit { b });
+            submitted.insert(b);
+            while submitted.contains(&next_commit) {
+                submitted.remove(&next_commit);
+                if !rig.commit_next(next_commit) {
+                    break;
+                }
+                next_commit += 1;
+            }
+            ok
+        } else if roll < 8 && open.len() < 3 {
             let b = next_b;
             next_b += 1;
             open.push(b);
@@ -786,16 +846,7 @@ fn seq_one(id: u64, rng: &mut StdRng, p: &SeqParams, panics: &Arc<AtomicU64>) ->
             }
             let b = cands[rng.gen_range(0..cands.len())];
             last_epoch.insert(wkey(k, v, p.kind), b);
-            if p.big && !big_done && p.kind == Kind::Set && rng.gen_range(0..4) == 0 {
-                // cross the spill threshold on key 0 with elements 1000..
-                big_done = true;
-                let lo = 1000;
-                let hi = 1000 + rng.gen_range(1020..1030);
-                for e in lo..hi {
-                    last_epoch.insert((0, e), b);
-                }
-                drv.run(1, Cmd::InsRange { b, k: 0, lo, hi }).0
-            } else if rng.gen_range(0..3) == 0 {
+            if rng.gen_range(0..3) == 0 {
                 drv.run(1, Cmd::Rem { b, k, v }).0
             } else {
                 drv.run(1, Cmd::Ins { b, k, v }).0
